@@ -67,6 +67,9 @@ def gen_grid(rng, kind=None):
     return t, kind, scale
 
 
+SPLINE_DIS = []
+
+
 def gen_samples(rng, n):
     re = rng.integers(-8, 9, n) / float(rng.choice([1, 2, 4]))
     im = rng.integers(-8, 9, n) / float(rng.choice([1, 2, 4])) if rng.random() < 0.7 else np.zeros(n)
@@ -267,6 +270,26 @@ def run(tier, seed, replay):
             continue
         guess = int(rng.integers(0, 2 * len(tl2) + 3))
         smax = max(1.0, float(np.abs(s).max()))
+        # (0) the table against the model of its construction (Props/C06Spline, taylorColumn): column k holds the derivatives
+        #     of the piece that starts at break point k, divided by factorials.  The pieces are SciPy's (trusted); a
+        #     disagreement is a broken correspondence, the oracles below look for a failing input.
+        if eff_order >= 2:
+            import scipy.interpolate as si
+            sarr = np.asarray(s, dtype=complex)
+            if bc == "periodic":
+                parts = [(1.0, si.make_interp_spline(t, sarr.real, k=eff_order, bc_type=bc)), (1j, si.make_interp_spline(t, sarr.imag, k=eff_order, bc_type=bc))]
+            else:
+                parts = [(1.0, si.make_interp_spline(t, sarr, k=eff_order, bc_type=bc))]
+            fact = 1.0
+            worst = 0.0
+            for i in range(eff_order + 1):
+                fact = fact * i if i else 1.0
+                col = sum(f_ * sp(tl2, i, extrapolate=False) for f_, sp in parts) / fact
+                sc_ = np.maximum(np.abs(col), smax)
+                worst = max(worst, float(np.max(np.abs(poly[eff_order - i] - col) / sc_)))
+            rep.count("spline-table-correspondence")
+            if not worst <= 1e-9:
+                SPLINE_DIS.append({"tlist": t.tolist(), "samples": [str(x) for x in s], "order": order, "boundary_conditions": bc, "relative_deviation": worst})
         # (a) model on the samples (orders 0 and 1)
         if eff_order <= 1:
             lines.append("C06.inter " + json.dumps({"grid": [fr(x) for x in t], "samples": [cq(x) for x in s], "order": order,
@@ -684,6 +707,11 @@ def run(tier, seed, replay):
             ndis += 1
             if first is None:
                 first = dict(bad, op=line.split(" ", 1)[0])
+    if SPLINE_DIS:
+        ndis += len(SPLINE_DIS)
+        if first is None:
+            first = {"which": "table of an order >= 2 coefficient vs the Taylor columns of SciPy's pieces (Props/C06Spline)", **SPLINE_DIS[0]}
+        del SPLINE_DIS[:]
     rep.notes["correspondence_disagreements"] = ndis
     rep.notes["correspondence_lines"] = len(lines)
     if ndis:
